@@ -90,6 +90,18 @@ module Z =
        | Zpos y' -> Zneg (Pos.mul x' y')
        | Zneg y' -> Zpos (Pos.mul x' y'))
 
+  (** val pow_pos : coq_Z -> positive -> coq_Z **)
+
+  let pow_pos z =
+    Pos.iter (mul z) (Zpos Coq_xH)
+
+  (** val pow : coq_Z -> coq_Z -> coq_Z **)
+
+  let pow x = function
+  | Z0 -> Zpos Coq_xH
+  | Zpos p -> pow_pos x p
+  | Zneg _ -> Z0
+
   (** val compare : coq_Z -> coq_Z -> comparison **)
 
   let compare x y =
